@@ -472,6 +472,7 @@ func quickCases() []*Case {
 		featureCase(Config{Layout: Layout{"single-file", "follow-schema", 0, "generated", "same"}, Dev: []string{"skip_mod_tidy"}}),
 		featureCase(Config{Layout: mainB, Dev: []string{"skip_mod_tidy", "resolver.preserve_resolver"}}),
 		smallCase("methodorder", smallFeatureSchemas()["methodorder"], mainF),
+		smallCase("directivesfile", smallFeatureSchemas()["directivesfile"], mainC),
 		// autobind names the package that also receives models_gen.go (api/testdata/default's layout)
 		featureCase(Config{Layout: Layout{"single-file", "single-file", 0, "autobind-self", "separate"}}),
 		featureCase(Config{Layout: Layout{"follow-schema", "follow-schema", 2, "autobind-self", "same"}, Dev: []string{"skip_mod_tidy"}}),
